@@ -219,7 +219,7 @@ def check(rec, kind, idx, rng, tier):
                     rec.ok('flat_window', int(flat.sum()))
                 else:
                     rec.violation(fname + '.flat', '%s on a flat 3x3 window is not %r' % (fname, expect), pay)
-        if idx == 0 and fname == 'slope':
+        if len(rec.samples) < 1 and fname == 'slope':
             rec.sample(dict(func=fname, z=z, cx=cx, cy=cy, got=got))
 
     # ---- locality: perturb one cell, outputs may change only in its 3x3 neighbourhood (NumPy backend, exact)
